@@ -1,6 +1,10 @@
 package checks
 
 import (
+	"embed"
+	"encoding/binary"
+	"encoding/hex"
+	"strings"
 	"testing"
 
 	"verifharness/ev"
@@ -15,3 +19,55 @@ func regressC01(t *testing.T, c *ev.Collector) {}
 func regressC02(t *testing.T, c *ev.Collector) {}
 func regressC03(t *testing.T, c *ev.Collector) {}
 func regressC04(t *testing.T, c *ev.Collector) {}
+
+//go:embed testdata/regress/*.txt
+var regressFS embed.FS
+
+// regressInputs reads testdata/regress/<id>.txt: one "name hex" pair per line
+// ("-" = empty input).
+func regressInputs(id string) (names []string, inputs [][]byte) {
+	data, err := regressFS.ReadFile("testdata/regress/" + id + ".txt")
+	if err != nil {
+		return
+	}
+	for _, line := range strings.Split(string(data), "\n") {
+		f := strings.Fields(line)
+		if len(f) != 2 || strings.HasPrefix(line, "#") {
+			continue
+		}
+		var b []byte
+		if f[1] != "-" {
+			if b, err = hex.DecodeString(f[1]); err != nil {
+				continue
+			}
+		}
+		names, inputs = append(names, f[0]), append(inputs, b)
+	}
+	return
+}
+
+// regressC07: every input that once made Parse panic, hang or return (nil, nil)
+// (the shrunk cases of the repaired defects), plus constructed 64 KiB frames.
+func regressC07(t *testing.T, c *ev.Collector) {
+	names, inputs := regressInputs("C07")
+	for i, in := range inputs {
+		c.Eval()
+		parseTotal(c, nil, in, "regress:"+names[i], nil, true)
+	}
+	// multipart replies that fill the frame (the uint16 offset used to wrap): table, aggregate, queue records
+	for _, ty := range []uint16{2, 3, 5, 4, 0, 1, 0xffff, 13} {
+		for _, size := range []int{65535, 65528, 65520, 65512} {
+			b := make([]byte, size)
+			b[0], b[1] = 4, 19
+			binary.BigEndian.PutUint16(b[2:], uint16(size))
+			binary.BigEndian.PutUint16(b[8:], ty)
+			for j := 16; j < size; j++ {
+				b[j] = byte(j * 7)
+			}
+			c.Eval()
+			parseTotal(c, nil, b, "regress:mp_reply_64k", nil, true)
+		}
+	}
+	c.LabelN("regress_inputs", int64(len(inputs)+32))
+	c.FailIfViolations(t)
+}
